@@ -42,9 +42,13 @@ fn run(prop: &str, tier: Tier) -> i32 {
         "C07" => checks::c07::run(tier),
         "C08" => checks::c08::run(tier),
         "C09" => checks::c09::run(tier),
+        "C10" => checks::c10::run(tier),
         "C11" => checks::c11::run(tier),
+        "C13" => checks::c13::run(tier),
         "C14" => checks::c14::run(tier),
         "C15" => checks::c15::run(tier),
+        "C16" => checks::c16::run(tier),
+        "C17" => checks::c17::run(tier),
         _ => {
             eprintln!("unknown property {prop}");
             2
@@ -78,9 +82,13 @@ fn replay(path: &str) -> i32 {
         "C05" => checks::c05::replay(&case),
         "C06" | "C07" | "C08" => checks::c07::replay(&case),
         "C09" => checks::c09::replay(&case),
+        "C10" => checks::c10::replay(&case),
         "C11" => checks::c11::replay(&case),
+        "C13" => checks::c13::replay(&case),
         "C14" => checks::c14::replay(&case),
         "C15" => checks::c15::replay(&case),
+        "C16" => checks::c16::replay(&case),
+        "C17" => checks::c17::replay(&case),
         _ => {
             eprintln!("unknown property in replay file");
             2
